@@ -111,6 +111,7 @@ class Effects:
         for f in P.all_funcs():
             self.fe[f.qual] = self._analyse(f)
         self._closure_cache = {}
+        self._succ = {}
 
     # ------------------------------------------------------------ per function
     def _analyse(self, func):
@@ -122,7 +123,16 @@ class Effects:
             params.add(a.vararg.arg)
         if a.kwarg:
             params.add(a.kwarg.arg)
-        alias = {p: p for p in params}
+        # parameters whose default is a numeric / string literal are scalars by
+        # the API: an augmented assignment rebinds the local, nothing to alias
+        scalar = set()
+        pos = a.posonlyargs + a.args
+        for x, d in list(zip(pos[len(pos) - len(a.defaults):], a.defaults)) + \
+                [(x, d) for x, d in zip(a.kwonlyargs, a.kw_defaults) if d]:
+            if isinstance(d, ast.Constant) and isinstance(
+                    d.value, (int, float, str, bool)) and d.value is not None:
+                scalar.add(x.arg)
+        alias = {p: p for p in params if p not in scalar}
         fresh = set()
         fe.alias = alias
 
@@ -294,6 +304,13 @@ class Effects:
                                 out.append(P.classes[c].props[n.attr])
         return out
 
+    def succ(self, f):
+        c = self._succ.get(f.qual)
+        if c is None:
+            c = self.callees(f) + self.prop_reads(f)
+            self._succ[f.qual] = c
+        return c
+
     def closure(self, entry, stop=lambda f: False):
         """set of functions reachable from entry (Func) through calls and
         property reads."""
@@ -307,7 +324,7 @@ class Effects:
             seen[f.qual] = (f, parent)
             if stop(f):
                 continue
-            for g in self.callees(f) + self.prop_reads(f):
+            for g in self.succ(f):
                 if g.qual not in seen:
                     stack.append((g, f.qual))
         return seen
